@@ -114,6 +114,18 @@ fn main() {
     exit(supervisor::supervise(&prop, &a));
   }
 
+  if a.child {
+    // a campaign child must not outlive its supervisor (an outer `timeout` kills only the
+    // supervisor, and a case that never returns would keep this process spinning for ever)
+    let parent = std::os::unix::process::parent_id();
+    std::thread::spawn(move || loop {
+      std::thread::sleep(std::time::Duration::from_secs(2));
+      if std::os::unix::process::parent_id() != parent {
+        eprintln!("HARNESS-ERROR: supervisor is gone; child exits");
+        std::process::exit(2);
+      }
+    });
+  }
   alloc::install_probe();
   monitor::install_panic_hook();
   inflight::init(env::var("VERIF_INFLIGHT").ok().as_deref());
